@@ -507,6 +507,14 @@ def cases(ctx):
         if am[3] is None:
             am[3] = [0, 1232, []]
         yield "signed", [9, am, rng.choice(PADS), rng.choice([0, 1, 2]), rng.choice([0, 1])]
+    # every HMAC algorithm, as a dns.tsig.Key (algorithm argument of use_tsig left at its default) and through a
+    # dict keyring with the algorithm given; padded and unpadded; the first rendering after use_tsig
+    for algidx in range(len(TSIG_ALGS)):
+        for dictmode in (0, 1):
+            am = g.gen_query_like(rng, None, "small" if ctx.quick else "medium", opcode=0, with_tsig=False)
+            if am[3] is None:
+                am[3] = [0, 1232, []]
+            yield "signed-alg", [9, am, rng.choice([16, 128, 468, 0]), rng.choice([0, 1, 2]), 1, algidx, dictmode]
 
 
 def in_model(kind, case):
@@ -516,10 +524,16 @@ def in_model(kind, case):
 KEY = dns.tsig.Key("key.example.com.", b"0123456789abcdef0123456789abcdef", "hmac-sha256")
 
 
-def signed_sweep(am, pad, keymode, prefer):
-    """use_tsig with a real key; the message is rendered at every limit and parsed with the keyring.
-    Returns the list of problems."""
+TSIG_ALGS = ["hmac-sha256.", "hmac-md5.sig-alg.reg.int.", "hmac-sha1.", "hmac-sha224.", "hmac-sha256-128.", "hmac-sha384.",
+             "hmac-sha384-192.", "hmac-sha512.", "hmac-sha512-256."]
+
+
+def signed_sweep(am, pad, keymode, prefer, algidx=0, dictmode=0):
+    """use_tsig with a real key of any HMAC algorithm (a dns.tsig.Key with the algorithm argument left at its
+    default, or a dict keyring with the algorithm given); the FIRST rendering of a freshly signed message at every
+    limit, parsed with the keyring.  Returns the list of problems."""
     probs = []
+    alg = TSIG_ALGS[algidx % len(TSIG_ALGS)]
     m = g.mk_message(am, pad=pad)
     kn = [b"key", b"example", b"com", b""]
     if keymode == 1 and am[2][0]:
@@ -530,13 +544,21 @@ def signed_sweep(am, pad, keymode, prefer):
         q = am[2][1][0][0]
         if q and q[-1] == b"":
             kn = list(q)
-    key = dns.tsig.Key(g.N(kn), b"0123456789abcdef0123456789abcdef", "hmac-sha256")
-    m.use_tsig(key)
+    secret = b"0123456789abcdef0123456789abcdef"
+    key = dns.tsig.Key(g.N(kn), secret, alg)
+
+    def sign(x):
+        if dictmode:
+            x.use_tsig({g.N(kn): secret}, keyname=g.N(kn), algorithm=alg)
+        else:
+            x.use_tsig(key)
+
+    sign(m)
     full = len(m.to_wire(want_shuffle=False))
     prev = None
     for lim in range(512, full + 3):
         m2 = g.mk_message(am, pad=pad)
-        m2.use_tsig(key)
+        sign(m2)
         try:
             w = m2.to_wire(max_size=lim, prefer_truncation=bool(prefer), want_shuffle=False)
         except dns.exception.TooBig:
@@ -596,9 +618,10 @@ def impl(case):
         _, am, origin, steps = case
         return history_impl(am, origin, steps)
     if op == 9:
-        _, am, pad, keymode, prefer = case
+        _, am, pad, keymode, prefer = case[:5]
+        algidx, dictmode = (case[5], case[6]) if len(case) > 5 else (0, 0)
         try:
-            return [p.encode() for p in signed_sweep(am, pad, keymode, prefer)]
+            return [p.encode() for p in signed_sweep(am, pad, keymode, prefer, algidx, dictmode)]
         except Exception as e:  # noqa
             return g.exc_code(e)
     return Err(998)
